@@ -1526,6 +1526,62 @@ def _single_exit_to_returns(fn):
   rec(fn.body)
 
 
+def _callee_choice(fn):
+  """`g = A if c else B` followed by one simple statement that calls g (its
+  only use) is `if c: <statement with A>` / `else: <statement with B>`: the
+  callee is named at each call, as in the two-branch spelling."""
+  def pure(e):
+    if isinstance(e, ast.Compare):
+      return _simple(e.left) and all(_simple(x) for x in e.comparators)
+    if isinstance(e, ast.BoolOp):
+      return all(pure(v) for v in e.values)
+    if isinstance(e, ast.UnaryOp) and isinstance(e.op, ast.Not):
+      return pure(e.operand)
+    return _simple(e)
+
+  def rec(stmts):
+    for st in stmts:
+      if isinstance(st, (ast.FunctionDef, ast.AsyncFunctionDef, ast.ClassDef)):
+        continue
+      for f in ('body', 'orelse', 'finalbody'):
+        b = getattr(st, f, None)
+        if isinstance(b, list) and b and isinstance(b[0], ast.stmt):
+          rec(b)
+      for h in getattr(st, 'handlers', []) or []:
+        rec(h.body)
+    i = 0
+    while i + 1 < len(stmts):
+      a, b = stmts[i], stmts[i + 1]
+      if isinstance(a, ast.Assign) and len(a.targets) == 1 and isinstance(
+          a.targets[0], ast.Name) and isinstance(a.value, ast.IfExp) and pure(
+              a.value.test) and _simple(a.value.body) and _simple(a.value.orelse) and \
+          isinstance(b, (ast.Return, ast.Expr, ast.Assign)):
+        g = a.targets[0].id
+        loads = [x for x in ast.walk(fn) if isinstance(x, ast.Name) and x.id == g and
+                 isinstance(x.ctx, ast.Load)]
+        stores = [x for x in ast.walk(fn) if isinstance(x, ast.Name) and x.id == g and
+                  not isinstance(x.ctx, ast.Load)]
+        calls = [c for c in ast.walk(b) if isinstance(c, ast.Call) and isinstance(
+            c.func, ast.Name) and c.func.id == g]
+        in_b = [x for x in ast.walk(b) if isinstance(x, ast.Name) and x.id == g and
+                isinstance(x.ctx, ast.Load)]
+        # (after a `return` nothing can read this binding any more)
+        only_here = (len(loads) == 1 and len(stores) == 1) or isinstance(b, ast.Return)
+        if only_here and len(calls) == 1 and len(in_b) == 1 and in_b[0] is calls[0].func:
+          def with_callee(e):
+            b2 = copy.deepcopy(b)
+            for c in ast.walk(b2):
+              if isinstance(c, ast.Call) and isinstance(c.func, ast.Name) and c.func.id == g:
+                c.func = copy.deepcopy(e)
+            return b2
+          new = ast.If(test=a.value.test, body=[with_callee(a.value.body)],
+                       orelse=[with_callee(a.value.orelse)])
+          stmts[i:i + 2] = [ast.fix_missing_locations(ast.copy_location(new, a))]
+          continue
+      i += 1
+  rec(fn.body)
+
+
 class _Idioms(ast.NodeTransformer):
   """Spelling variants with one meaning, brought to one form:
        x.get(k, None) -> x.get(k)          set((a,)) / set([a]) -> {a}
@@ -1535,6 +1591,7 @@ class _Idioms(ast.NodeTransformer):
     self.__dict__.setdefault('_fns', []).append(n)
     self.generic_visit(n)
     self._fns.pop()
+    _callee_choice(n)
     _single_exit_to_returns(n)
     return n
 
